@@ -378,6 +378,15 @@ func c03Check(ctx *vfCtx, c c03Case) {
 				ctx.Fail("C03/redact-flag", "Redacted() false after Redact()")
 			}
 			fresh("redact", cur)
+			// the redacted OBJECT still reports its envelope as before (in v12 the create event first
+			// among the auth events): redaction removes content, it does not re-derive who the event is
+			var aids, pids []string
+			if vfCatch(ctx, "C03/edit/redact", func() { aids, pids = cur.AuthEventIDs(), cur.PrevEventIDs() }) {
+				return
+			}
+			if fmt.Sprint(aids) != fmt.Sprint(orig.Auth) || fmt.Sprint(pids) != fmt.Sprint(orig.Prev) {
+				ctx.Fail("C03/envelope-changed-by-redaction", "after Redact() the event reports auth events %v / prev events %v; before: %v / %v", aids, pids, orig.Auth, orig.Prev)
+			}
 		case "raw_unsigned", "raw_signatures":
 			t2, terr := evTree(cur.JSON())
 			if terr != nil {
